@@ -27,6 +27,12 @@ CHECKS = {
     "C04": dict(cat="other", ref="DESIGN.md §4 C04", technique="CrossHair symbolic execution of the real receiver-thread body over a stream cut at a symbolic byte offset with symbolic read chunking (Popen2IO and SocketIO)",
                 text="Bounded symbolic check over every cut offset of enumerated frame histories: delivered items are exactly the complete frames, then EOFError everywhere, endmarker once, gateway refuses further use. Several concurrently blocked waiters (schedules) are outside this check.",
                 note=E1_NOTE + "; the receiver thread body is executed synchronously, so interleavings with blocked user threads are not explored here"),
+    "C07": dict(cat="other", ref="DESIGN.md §4 C07", technique="CrossHair symbolic execution of the callback-error and remote-body-error paths over scripted frame histories (symbolic failure position, channel alive/dropped)",
+                text="Bounded symbolic check of failure histories on both sides of a channel; schedules with concurrently active user threads are outside this check.",
+                note=E1_NOTE + "; receiver thread bodies run synchronously (no interleaving with user threads)"),
+    "C10": dict(cat="other", ref="DESIGN.md §4 C10", technique="CrossHair symbolic execution of setcallback hand-over and endmarker logic over frame histories with a symbolic setcallback position",
+                text="Bounded symbolic check over all positions of setcallback in enumerated histories (4 end causes); relies on setcallback and handlers being serialised by the receive lock, which is the real code's own locking; a local close racing setcallback is outside.",
+                note=E1_NOTE + "; the receive lock's mutual exclusion itself is assumed (threading.RLock)"),
 }
 
 NOT_APPLICABLE = [
